@@ -62,6 +62,8 @@ type harness struct {
 	worlds []*world
 	wsdec  *wsDecoderServer
 	quiet  bool
+
+	reported map[string]int // failures reported so far, by kind
 }
 
 func (h *harness) world(f Flags) *world {
@@ -725,6 +727,11 @@ func (h *harness) checkOp(cs Case, verbose bool) opResult {
 						stable = false
 					}
 				}
+				if strings.HasPrefix(o.Resp, "closed ") {
+					// the server closed a kept connection on a well-formed operation: the re-run above
+					// went over a fresh connection and proves nothing — never dismissed as nondeterminism
+					stable = true
+				}
 				if !stable {
 					if os.Getenv("C17_DEBUG") != "" {
 						fmt.Printf("UNSTABLE [%s] %s\n  first carrier: %s\n  first ref:     %s\n  query %q vars %s\n", fl, c, o.key(), ref.key(), op.Query, strPtr(op.Vars))
@@ -1088,11 +1095,19 @@ func (h *harness) report(cs Case, f *failure) {
 	if f == nil {
 		return
 	}
-	if cs.Kind == "op" && cs.Big == nil && cs.Op != nil && len(cs.Op.Query) < 1<<16 {
-		cs, f = h.shrinkOp(cs, f)
+	// hx keeps three violations per kind: shrinking (many replays) is only worth it for those — a
+	// change that breaks most cases must not stall the run
+	if h.reported == nil {
+		h.reported = map[string]int{}
 	}
-	if cs.Kind == "hist" && f.kind == "property" {
-		cs, f = h.shrinkHist(cs, f)
+	h.reported[f.kind]++
+	if h.reported[f.kind] <= 3 {
+		if cs.Kind == "op" && cs.Big == nil && cs.Op != nil && len(cs.Op.Query) < 1<<16 {
+			cs, f = h.shrinkOp(cs, f)
+		}
+		if cs.Kind == "hist" && f.kind == "property" {
+			cs, f = h.shrinkHist(cs, f)
+		}
 	}
 	h.run.Violate(f.kind, f.what, "", f.kind == "correspondence", cs)
 }
